@@ -179,8 +179,10 @@ def run_unget(tables, items, pieces, enc, pipe, ctx=False, sigint=False):
     def take(inp):
         k = inp.send(0)
         if k is not None:
-            for x in (k.events if isinstance(k, cevents.PasteEvent) else [k]):
-                keys.append(list(x) if isinstance(x, bytes) else [-1])
+            cap = sum(len(x) for x in items) + 6
+            for x in (k.events if isinstance(k, cevents.PasteEvent) else [k])[:cap]:
+                if len(keys) < cap:
+                    keys.append(list(x) if isinstance(x, bytes) else [-1])
         return k
     term = _Pty() if ctx else None
     try:
@@ -244,8 +246,12 @@ def run_pipe(tables, items, enc, pipe, highfd=False, sigint=False):
                     break
                 continue
             quiet = 0
-            for x in (k.events if isinstance(k, cevents.PasteEvent) else [k]):
+            for x in (k.events if isinstance(k, cevents.PasteEvent) else [k])[:len(data) + 6]:
                 keys.append(list(x) if isinstance(x, bytes) else [-1])
+            if len(keys) > len(data) + 5:
+                # more keypresses than bytes were written: recorded up to here (the verdict fails on them), no need to go on
+                del keys[len(data) + 5:]
+                break
     finally:
         cinput.getpreferredencoding = orig
         if highfd:
